@@ -65,9 +65,16 @@ def scenarios(seed, tier):
         s['mode'] = 'split'
         s['refix_seed'] = rnd2.getrandbits(30)
         yield 'fixed%d' % i, s
+    # the same kind of portfolio through the other doors of the package (io.optimize with the data in several containers,
+    # run_from_json, set_param): comp/entry.py
+    from ..comp import entry as EN
+    yield from EN.stream(seed, n // 12, ('io', 'io_split', 'json'), tmax=10 if tier == 'quick' else 16)
 
 
 def run_case(scn, drv):
+    if scn.get('_stream') == 'entry':
+        from ..comp import entry as EN
+        return EN.run_stream_case(scn, ('nodal_balance',))
     if scn.get('_stream') == 'slp':
         from ..comp import slp as S
         r0 = S.run_case(scn['case'], drv)
